@@ -76,6 +76,31 @@ Fixpoint honest_all (ss : list (list ev)) (calls : list (N * N)) : bool :=
   | [], _ :: _ => false
   end.
 
+(* "The stream must return exactly range.end - range.start bytes or fail early with an Err": a scripted
+   stream that is honest, or that fails while bytes are still owed and from then on only fails again,
+   stays pending or ends (what ChunkedReadFile does on a truncated file) *)
+Fixpoint split_at_err (s : list ev) : list ev * option (list ev) :=
+  match s with
+  | [] => ([], None)
+  | EvErr _ :: t => ([], Some t)
+  | e :: t => let (a, b) := split_at_err t in (e :: a, b)
+  end.
+Definition contract_stream (s : list ev) (r : N * N) : bool :=
+  (snd r - fst r <=? 1048576) &&
+  match split_at_err s with
+  | (pre, None) => beq_bytes (flat_map ev_data pre) (content_range (fst r) (snd r))
+  | (pre, Some post) =>
+      let d := flat_map ev_data pre in
+      (lenN d <? snd r - fst r) && starts_with d (content_range (fst r) (snd r)) &&
+      negb (existsb (fun e => match e with EvData _ => true | _ => false end) post)
+  end.
+Fixpoint contract_all (ss : list (list ev)) (calls : list (N * N)) : bool :=
+  match ss, calls with
+  | s :: ss', c :: cs' => contract_stream s c && contract_all ss' cs'
+  | _, [] => true
+  | [], _ :: _ => false
+  end.
+
 Definition clause (prop name : string) : val := finding K_SPECFAIL (bs prop ++ [58] ++ bs name) (VL []) (VL []).
 Definition check (b : bool) (prop name : string) : list val := if b then [] else [clause prop name].
 
@@ -537,7 +562,7 @@ Definition spec_c12 (i : sinput) (o : sobs) : list val :=
           else []
       | _ => []
       end)
-  ++ (if honest_all (i_streams i) (o_calls o) then
+  ++ (if contract_all (i_streams i) (o_calls o) then
         check (eos_truthful (o_polls o) (o_eos0 o)) "C12" "end-of-stream-flag-means-nothing-more-comes"
       else []).
 
